@@ -470,13 +470,134 @@ def norm(node):
     return s
 
 
+_PINNED_LOCALS = None
+
+
+def _pinned_locals():
+    global _PINNED_LOCALS
+    if _PINNED_LOCALS is None:
+        import json
+        p = os.path.join(os.path.dirname(os.path.abspath(__file__)), 'refs', 'locals.json')
+        try:
+            with open(p) as f:
+                _PINNED_LOCALS = json.load(f)
+        except OSError:
+            _PINNED_LOCALS = {}
+    return _PINNED_LOCALS
+
+
+def local_names(fnode):
+    """parameters and locally bound names of a function (not nested defs)"""
+    out = set()
+    if isinstance(fnode, (ast.FunctionDef, ast.AsyncFunctionDef, ast.Lambda)):
+        a = fnode.args
+        for x in a.posonlyargs + a.args + a.kwonlyargs:
+            out.add(x.arg)
+        if a.vararg:
+            out.add(a.vararg.arg)
+        if a.kwarg:
+            out.add(a.kwarg.arg)
+    for n in ast.walk(fnode):
+        if isinstance(n, ast.Name) and isinstance(n.ctx, (ast.Store, ast.Del)):
+            out.add(n.id)
+        elif isinstance(n, ast.ExceptHandler) and n.name:
+            out.add(n.name)
+        elif isinstance(n, ast.arg):
+            out.add(n.arg)
+    return out
+
+
+class Src(str):
+    """Normalised source text of a node.  Containment/find/endswith first try the
+    literal text; if that fails and local variables of the function were renamed
+    since the reference tree (scverif/refs/locals.json), the snippet is retried with
+    those names mapped injectively and consistently onto the new local names, so a
+    behaviour-preserving rename of a local does not make a rule report the statement
+    as missing."""
+
+    def __new__(cls, text, node=None):
+        o = super().__new__(cls, text)
+        o.node = node
+        o._env = {}
+        o._cands = None
+        return o
+
+    def _setup(self):
+        if self._cands is not None:
+            return
+        fn = self.node
+        while fn is not None and not isinstance(fn, (ast.FunctionDef, ast.AsyncFunctionDef)):
+            fn = getattr(fn, '_parent', None)
+        self._missing, self._new = set(), set()
+        if fn is not None:
+            pinned = set(_pinned_locals().get(qualname_of(fn), []))
+            cur = local_names(fn)
+            self._missing = pinned - cur
+            self._new = cur - pinned
+        self._cands = True
+
+    def _variants(self, snippet):
+        """snippet with renamed locals (consistent with earlier successful matches)"""
+        import itertools
+        import re
+        self._setup()
+        if not self._missing or not self._new:
+            return
+        ids = [m for m in set(re.findall(r'(?<![.\w])([A-Za-z_]\w*)\b', snippet)) if m in self._missing]
+        if not ids:
+            return
+        free = [i for i in ids if i not in self._env]
+        used = set(self._env.values())
+        pool = [n for n in sorted(self._new) if n not in used]
+        for combo in itertools.permutations(pool, len(free)):
+            env = dict(self._env)
+            env.update(zip(free, combo))
+            out = snippet
+            for k in ids:
+                out = re.sub(rf'(?<![.\w]){re.escape(k)}\b', env[k], out)
+            yield out, env
+
+    def __contains__(self, snippet):
+        if str.__contains__(self, snippet):
+            return True
+        for v, env in self._variants(snippet) or ():
+            if str.__contains__(self, v):
+                self._env = env
+                return True
+        return False
+
+    def find(self, snippet, *a):
+        i = str.find(self, snippet, *a)
+        if i >= 0:
+            return i
+        for v, env in self._variants(snippet) or ():
+            i = str.find(self, v, *a)
+            if i >= 0:
+                self._env = env
+                return i
+        return -1
+
+    def endswith(self, snippet, *a):
+        if str.endswith(self, snippet, *a):
+            return True
+        if isinstance(snippet, str):
+            for v, env in self._variants(snippet) or ():
+                if str.endswith(self, v, *a):
+                    self._env = env
+                    return True
+        return False
+
+    def rstrip(self, *a):
+        return Src(str.rstrip(self, *a), self.node)
+
+
 def full(node):
     """Whole normalised source text of a node (no truncation)."""
     try:
         s = ast.unparse(node)
     except Exception:
         s = ast.dump(node)
-    return ' '.join(s.split())
+    return Src(' '.join(s.split()), node)
 
 
 def enclosing_function(node):
